@@ -68,3 +68,207 @@ Proof.
     rewrite fcalls_realize_plain. unfold s1. rewrite fcalls_start_call. reflexivity.
   - rewrite !hlen_set_cst. unfold s3. rewrite hlen_app. f_equal. exact Hh2.
 Qed.
+
+Lemma map_step_nil : forall restore f fn vs b c s,
+  map_at fn vs b (length vs) c s ->
+  exists s',
+    ev restore (S (S (S (S (S (S (S (S f)))))))) (CSeq c) s = (s', Ok ONil)
+    /\ chain_at vs b (S (length vs)) s'
+    /\ fcalls s' = fcalls s.
+Proof.
+  intros restore f fn vs b c s [Hc [Hg Hout]].
+  assert (Ev : nth_error vs (length vs) = None) by (apply nth_error_None; lia).
+  assert (Hcr : chain_ret vs b (length vs) = ONil) by (unfold chain_ret; rewrite Ev; reflexivity).
+  set (s1 := start_call s c).
+  assert (Hc1 : chain_at vs b (length vs) s1).
+  { eapply chain_at_frame; eauto. intros i Hi. unfold s1. rewrite get_start_call.
+    destruct (Nat.eqb_spec c (b + i)); [lia | reflexivity]. }
+  destruct (chain_step restore f vs b (length vs) s1 Hc1 ltac:(lia)) as [Hev Hc2].
+  rewrite Hcr in Hev, Hc2.
+  set (s2 := realize_plain s1 (b + length vs) ONil) in *.
+  assert (Hg2 : get s2 c = Some (mkCell Computing 1 0)).
+  { unfold s2. rewrite get_realize_plain_other by lia. unfold s1. rewrite get_start_call, Nat.eqb_refl, Hg. reflexivity. }
+  exists (set_cst (set_cst s2 c (Computed ONil)) c (Realized ONil)). split; [|split].
+  - rewrite ev_CSeq, Hg. cbn [cst out_cell]. rewrite ev_CCompute, Hg. cbn [cst out_cell].
+    rewrite ev_CGen_map, ev_CToSeq_lazy. fold s1. rewrite Hev.
+    rewrite get_set_cst, Nat.eqb_refl, Hg2. cbn [option_map cst].
+    rewrite ev_CUnwrap_plain by reflexivity. reflexivity.
+  - eapply chain_at_frame; [exact Hc2|]. intros i Hi.
+    rewrite !get_set_cst. destruct (Nat.eqb_spec c (b + i)); [lia|]. reflexivity.
+  - rewrite !fcalls_set_cst. unfold s2. rewrite fcalls_realize_plain. unfold s1. apply fcalls_start_call.
+Qed.
+
+(** (map f chain): walking m elements runs the producers of the first m source cells (plus the final
+    nil cell when the walk reaches the end) and applies f once per element produced -- nothing ahead. *)
+Lemma walk_map : forall restore f fn vs b m j c s acc,
+  map_at fn vs b j c s -> j <= length vs ->
+  exists s' cur,
+    walk restore (S (S (S (S (S (S (S (S (S f))))))))) m (OLazy c) acc s =
+      (s', Ok cur, rev (map (app_fn fn) (chain_vals vs j m)) ++ acc)
+    /\ chain_at vs b (Nat.min (j + m) (S (length vs))) s'
+    /\ fcalls s' = (fcalls s + N.of_nat (Nat.min m (length vs - j)))%N.
+Proof.
+  induction m; intros j c s acc Hm Hj.
+  - exists s, (OLazy c). simpl. unfold chain_vals. simpl. split; [reflexivity|split].
+    + replace (Nat.min (j + 0) (S (length vs))) with j by lia. apply Hm.
+    + simpl. lia.
+  - rewrite walk_S, ev_CIterNext_lazy.
+    destruct (nth_error vs j) as [v|] eqn:Ev.
+    + assert (Hlt : j < length vs) by (apply nth_error_Some; congruence).
+      destruct (map_step_cons restore f fn vs b j c s v Hm Ev) as [s1 [Hev [Hm1 [Hf1 Hh1]]]].
+      rewrite Hev. cbn [rest_norm].
+      destruct (IHm (S j) (hlen s) s1 (app_fn fn v :: acc) Hm1 ltac:(lia)) as [s' [cur [Hw [Hc' Hf']]]].
+      exists s', cur. rewrite Hw. split; [|split].
+      * f_equal. unfold chain_vals. rewrite (skipn_cons_nth vs j v Ev). simpl. rewrite <- app_assoc. reflexivity.
+      * replace (j + S m) with (S j + m) by lia. exact Hc'.
+      * rewrite Hf', Hf1. replace (Nat.min (S m) (length vs - j)) with (S (Nat.min m (length vs - S j))) by lia. lia.
+    + assert (Hge : length vs <= j) by (apply nth_error_None; assumption).
+      assert (j = length vs) by lia. subst j.
+      destruct (map_step_nil restore f fn vs b c s Hm) as [s1 [Hev [Hc1 Hf1]]].
+      rewrite Hev. exists s1, ONil. split; [|split].
+      * unfold chain_vals. rewrite skipn_all. rewrite firstn_nil. reflexivity.
+      * replace (Nat.min (length vs + S m) (S (length vs))) with (S (length vs)) by lia. exact Hc1.
+      * rewrite Hf1. replace (length vs - length vs) with 0 by lia. rewrite Nat.min_0_r. simpl. lia.
+Qed.
+
+(* ---------------------------------------------------------------------------------- *)
+(** ** iterate *)
+
+Definition iter_at (fn : fn) (x : N) (c : nat) (s : st) : Prop := get s c = Some (out_cell (GIterate fn x)).
+
+Lemma iterate_step : forall restore f fn x c s,
+  iter_at fn x c s ->
+  exists s',
+    ev restore (S (S (S f))) (CSeq c) s = (s', Ok (OCons x (OLazy (hlen s))))
+    /\ iter_at fn (app_fn fn x) (hlen s) s'
+    /\ fcalls s' = N.succ (fcalls s).
+Proof.
+  intros restore f fn x c s Hg. unfold iter_at in *.
+  assert (Hclt : c < hlen s) by (eapply get_lt; eauto).
+  set (s1 := start_call s c).
+  assert (Hh1 : hlen s1 = hlen s) by apply hlen_start_call.
+  set (r := OCons x (OLazy (hlen s))).
+  set (s3 := set_heap (bump_f s1) (heap (bump_f s1) ++ [out_cell (GIterate fn (app_fn fn x))])).
+  assert (Hg3 : get s3 c = Some (mkCell Computing 1 0)).
+  { unfold s3. erewrite get_app_old; [reflexivity|]. rewrite get_bump_f. unfold s1.
+    rewrite get_start_call, Nat.eqb_refl, Hg. reflexivity. }
+  exists (set_cst (set_cst s3 c (Computed r)) c (Realized r)). split; [|split].
+  - rewrite ev_CSeq, Hg. cbn [cst out_cell]. rewrite ev_CCompute, Hg. cbn [cst out_cell].
+    rewrite ev_CGen_iterate. fold s1. unfold alloc. change (set_heap (bump_f s1) _) with s3.
+    change (length (heap (bump_f s1))) with (hlen s1). rewrite Hh1. fold r.
+    rewrite get_set_cst, Nat.eqb_refl, Hg3. cbn [option_map cst].
+    rewrite ev_CUnwrap_plain by reflexivity. reflexivity.
+  - rewrite !get_set_cst. destruct (Nat.eqb_spec c (hlen s)); [lia|].
+    unfold s3. replace (hlen s) with (hlen (bump_f s1)) by (exact Hh1). apply get_app_new.
+  - rewrite !fcalls_set_cst. unfold s3. cbn [fcalls set_heap bump_f]. unfold s1. rewrite fcalls_start_call. reflexivity.
+Qed.
+
+Fixpoint iterates (fn : fn) (x : N) (m : nat) : list N :=
+  match m with O => [] | S k => x :: iterates fn (app_fn fn x) k end.
+
+(** forcing m elements of (iterate f x) applies f exactly m times: one application more than the
+    m - 1 the elements need (the generator computes the NEXT seed eagerly): lookahead 1 *)
+Lemma walk_iterate : forall restore f fn m x c s acc,
+  iter_at fn x c s ->
+  exists s' cur,
+    walk restore (S (S (S (S f)))) m (OLazy c) acc s = (s', Ok cur, rev (iterates fn x m) ++ acc)
+    /\ fcalls s' = (fcalls s + N.of_nat m)%N.
+Proof.
+  induction m; intros x c s acc Hi.
+  - exists s, (OLazy c). simpl. split; [reflexivity|lia].
+  - rewrite walk_S, ev_CIterNext_lazy.
+    destruct (iterate_step restore f fn x c s Hi) as [s1 [Hev [Hi1 Hf1]]].
+    rewrite Hev. cbn [rest_norm].
+    destruct (IHm (app_fn fn x) (hlen s) s1 (x :: acc) Hi1) as [s' [cur [Hw Hf']]].
+    exists s', cur. rewrite Hw. split.
+    + simpl. rewrite <- app_assoc. reflexivity.
+    + rewrite Hf', Hf1. lia.
+Qed.
+
+(* ---------------------------------------------------------------------------------- *)
+(** ** iterator seqs: seq.rs Sequence over a Python iterator -- one pull per cell *)
+
+Definition seqit_at (it c : nat) (s : st) : Prop := get s c = Some (out_cell (GSeqIt it)).
+
+Lemma ev_CPull_val : forall restore f it s v l,
+  nth_error (iters s) it = Some (ItList (IVal v :: l)) ->
+  ev restore (S f) (CPull it) s = (set_iter s it (ItList l), Ok (OCons v ONil)).
+Proof. intros. simpl. rewrite H. reflexivity. Qed.
+
+Lemma ev_CPull_end : forall restore f it s,
+  nth_error (iters s) it = Some (ItList []) ->
+  ev restore (S f) (CPull it) s = (s, Ok ONil).
+Proof. intros. simpl. rewrite H. reflexivity. Qed.
+
+Lemma seqit_step_val : forall restore f it c s v l,
+  seqit_at it c s -> nth_error (iters s) it = Some (ItList (IVal v :: l)) ->
+  exists s',
+    ev restore (S (S (S (S f)))) (CSeq c) s = (s', Ok (OCons v (OLazy (hlen s))))
+    /\ seqit_at it (hlen s) s'
+    /\ nth_error (iters s') it = Some (ItList l).
+Proof.
+  intros restore f it c s v l Hg Hi. unfold seqit_at in *.
+  assert (Hclt : c < hlen s) by (eapply get_lt; eauto).
+  set (s1 := start_call s c).
+  assert (Hh1 : hlen s1 = hlen s) by apply hlen_start_call.
+  assert (Hi1 : nth_error (iters s1) it = Some (ItList (IVal v :: l))) by (unfold s1; rewrite iters_start_call; exact Hi).
+  set (s2 := set_iter s1 it (ItList l)).
+  set (r := OCons v (OLazy (hlen s))).
+  set (s3 := set_heap s2 (heap s2 ++ [out_cell (GSeqIt it)])).
+  assert (Hg3 : get s3 c = Some (mkCell Computing 1 0)).
+  { unfold s3. erewrite get_app_old; [reflexivity|]. unfold s2, s1.
+    change (get (set_iter (start_call s c) it (ItList l)) c) with (get (start_call s c) c).
+    rewrite get_start_call, Nat.eqb_refl, Hg. reflexivity. }
+  exists (set_cst (set_cst s3 c (Computed r)) c (Realized r)). split; [|split].
+  - rewrite ev_CSeq, Hg. cbn [cst out_cell]. rewrite ev_CCompute, Hg. cbn [cst out_cell].
+    rewrite ev_CGen_seqit. fold s1. rewrite (ev_CPull_val restore f it s1 v l Hi1). fold s2.
+    unfold alloc. change (set_heap s2 _) with s3. change (length (heap s2)) with (hlen s1). rewrite Hh1. fold r.
+    rewrite get_set_cst, Nat.eqb_refl, Hg3. cbn [option_map cst].
+    rewrite ev_CUnwrap_plain by reflexivity. reflexivity.
+  - rewrite !get_set_cst. destruct (Nat.eqb_spec c (hlen s)); [lia|].
+    unfold s3. replace (hlen s) with (hlen s2) by (exact Hh1). apply get_app_new.
+  - rewrite !iters_set_cst. unfold s3. cbn [iters set_heap]. unfold s2. cbn [iters set_iter].
+    apply nth_error_upd_same. apply nth_error_Some. congruence.
+Qed.
+
+Lemma seqit_step_end : forall restore f it c s,
+  seqit_at it c s -> nth_error (iters s) it = Some (ItList []) ->
+  exists s',
+    ev restore (S (S (S (S f)))) (CSeq c) s = (s', Ok ONil)
+    /\ nth_error (iters s') it = Some (ItList []) /\ hlen s' = hlen s.
+Proof.
+  intros restore f it c s Hg Hi. unfold seqit_at in *.
+  set (s1 := start_call s c).
+  assert (Hi1 : nth_error (iters s1) it = Some (ItList [])) by (unfold s1; rewrite iters_start_call; exact Hi).
+  assert (Hg1 : get s1 c = Some (mkCell Computing 1 0)).
+  { unfold s1. rewrite get_start_call, Nat.eqb_refl, Hg. reflexivity. }
+  exists (set_cst (set_cst s1 c (Computed OEmpty)) c (Realized ONil)). split; [|split].
+  - rewrite ev_CSeq, Hg. cbn [cst out_cell]. rewrite ev_CCompute, Hg. cbn [cst out_cell].
+    rewrite ev_CGen_seqit. fold s1. rewrite (ev_CPull_end restore f it s1 Hi1).
+    rewrite get_set_cst, Nat.eqb_refl, Hg1. cbn [option_map cst].
+    rewrite ev_CUnwrap_plain by reflexivity. reflexivity.
+  - rewrite !iters_set_cst. exact Hi1.
+  - rewrite !hlen_set_cst. apply hlen_start_call.
+Qed.
+
+(** walking m elements of (iterator-seq it) takes exactly min m (length vs) values out of the
+    iterator (and, when the walk reaches the end, the one pull that finds it exhausted) *)
+Lemma walk_seqit : forall restore f it m vs c s acc,
+  seqit_at it c s -> nth_error (iters s) it = Some (ItList (map IVal vs)) ->
+  exists s' cur,
+    walk restore (S (S (S (S (S f))))) m (OLazy c) acc s = (s', Ok cur, rev (firstn m vs) ++ acc)
+    /\ nth_error (iters s') it = Some (ItList (map IVal (skipn m vs))).
+Proof.
+  induction m; intros vs c s acc Hg Hi.
+  - exists s, (OLazy c). simpl. split; [reflexivity|exact Hi].
+  - rewrite walk_S, ev_CIterNext_lazy. destruct vs as [|v vs].
+    + destruct (seqit_step_end restore f it c s Hg Hi) as [s1 [Hev [Hi1 _]]].
+      rewrite Hev. exists s1, ONil. split; [reflexivity|exact Hi1].
+    + simpl in Hi.
+      destruct (seqit_step_val restore f it c s v (map IVal vs) Hg Hi) as [s1 [Hev [Hg1 Hi1]]].
+      rewrite Hev. cbn [rest_norm].
+      destruct (IHm vs (hlen s) s1 (v :: acc) Hg1 Hi1) as [s' [cur [Hw Hi']]].
+      exists s', cur. rewrite Hw. split.
+      * simpl. rewrite <- app_assoc. reflexivity.
+      * exact Hi'.
+Qed.
